@@ -16,6 +16,7 @@ func init() {
 			a.c18SendDispatch("P.send-dispatch")
 			a.c18Resend()
 			a.endForgetsLastText("P.resend")
+			a.eventsDelivered("P.events-delivered")
 			// the session ends when the user says so (or the peer disconnects): nothing inside the library calls End
 			if end := a.MustFn("(*Conversation).End"); end != nil {
 				n := 0
